@@ -147,18 +147,12 @@ static void pool_scenario() {
   if (!v1 || !v2) V_WITNESS("constpool-refused");
 }
 #define POOL_H(NAME, A, B, C, FILL) HARNESS h_pool_##NAME() { pool_scenario<A, B, C, FILL>(); }
+// Dropped after measurement (each exhausts the 8 GB cap of one query, see spec.OUTSIDE): 8,4 / 4,8 / 8,8 / 1,8,1 / 4,4,4 / 4,8,4 / 16,8,4.
 POOL_H(1_4_2, 1, 4, 2, true)          // alignment gap created by the second add, reused by the third
 POOL_H(4_4, 4, 4, NONE, false)         // same tree: equal -> one offset, different -> two
-POOL_H(8_4, 8, 4, NONE, false)         // 8-byte constant registers its two halves; a later 4-byte add may hit one
 POOL_H(2_65, 2, 65, NONE, true)       // invalid sizes
 POOL_H(0_3, 0, 3, NONE, true)
-POOL_H(1_8_1, 1, 8, 1, true)          // 7-byte gap split into 1+2+4, the third add takes the 1-byte gap
-POOL_H(4_4_4, 4, 4, 4, false)          // three nodes in one tree (rotation)
-POOL_H(8_8, 8, 8, NONE, false)
-POOL_H(16_8_4, 16, 8, 4, false)        // quarter and half of a 16-byte constant
-POOL_H(4_8, 4, 8, NONE, false)         // small first: the half already exists when the wide constant registers its halves
 POOL_H(1_4_1, 1, 4, 1, false)         // stability: the third add may repeat the first constant after the pool has grown
-POOL_H(4_8_4, 4, 8, 4, false)
 
 // Shared sub-constants without a second add (an add into a tree that already holds two nodes exhausts the memory cap):
 // after add(8 bytes) the lookup the pool itself uses finds both 4-byte halves, registered as shared nodes inside the parent.
